@@ -38,6 +38,10 @@ Canonical forms (robustness rounds; equivalent idioms give the same text):
   * `for f in (A, B, C): BODY` with a literal tuple = the copies of BODY; `zip(p, q)` of two pairs = the list of the two
     component pairs; a `for` over any expression of that type is the local structural loop
   * a helper function keeps what an `isinstance` test established about the argument it is given
+  * `assert E` with E free of effects is the guard `if E then .. else None` (the agreement proof then has to show E);
+    D.keys() and A.isdisjoint(B) are available for such tests.  `assert x is not None` on a local whose translation has a
+    non-option type holds by construction and is dropped; on an option type it is the guard; on a parameter that defaults to
+    None it is refused
   * `PRE; while isinstance(param, C): param = E; REST` = the tail call `if isinstance(param, C): return f(E, ...)`, under the
     side condition (emitted as a lemma of the generated file, so checked by Coq, not here) that re-running PRE on its own
     results changes nothing
@@ -408,6 +412,11 @@ def tr(ctx, e, k):
                 if fn is None:
                     die(e, f'{cls}.{m} not found')
                 return inline_expr(ctx, cls, dc, fn, ctx.env[f.value.id][0], e.args, k, f'{cls}.{m}')
+            if m == 'keys' and not e.args and not e.keywords:
+                return tr(ctx, f.value, lambda t, ty: k(f'(keys {t})', 'set') if ty == 'dict' else die(e, f'keys of {ty}'))
+            if m == 'isdisjoint' and len(e.args) == 1 and not e.keywords:      # sets and key views both have it
+                return tr(ctx, f.value, lambda ta, tya: tr(ctx, e.args[0], lambda tb, tyb:
+                          k(f'(disjointb {ta} {tb})', 'bool') if tya == tyb == 'set' else die(e, f'{m} of {tya} and {tyb}')))
             if m == 'union' and len(e.args) == 1:
                 return tr(ctx, f.value, lambda ta, tya: tr(ctx, e.args[0], lambda tb, tyb:
                           k(f'({ta} ++ {tb})', 'set') if tya == tyb == 'set' else die(e, 'union')))
@@ -657,7 +666,7 @@ def block(ctx, stmts, rty):
         b = block(ctx, rest, rty)
         return mk_if(c, a, b)
     if isinstance(s, ast.Assert):
-        return tr(ctx, s.test, lambda t, ty: f'(if {t} then {block(ctx, rest, rty)} else None)' if ty == 'bool' else die(s, 'assert'))
+        return tr(ctx, s.test, lambda t, ty: mk_if(t, block(ctx, rest, rty), 'None') if ty == 'bool' else die(s, 'assert'))
     if isinstance(s, (ast.Assign, ast.AnnAssign)):
         tgt = s.targets[0] if isinstance(s, ast.Assign) else s.target
         if isinstance(s, ast.Assign) and len(s.targets) != 1:
@@ -847,6 +856,23 @@ def fblock(ctx, stmts, cont):
         return after(ctx)
     if isinstance(s, ast.AnnAssign) and s.value is None:
         return after(ctx)
+    if isinstance(s, ast.Assert):
+        t_ = s.test
+        # `assert X is not None`: the translation is typed; a name whose type is not an option type cannot be None, the
+        # assertion holds by construction and says nothing.  On an option type it is the guard (AssertionError = None).
+        if (isinstance(t_, ast.Compare) and len(t_.ops) == 1 and isinstance(t_.ops[0], ast.IsNot) and isinstance(t_.left, ast.Name)
+                and isinstance(t_.comparators[0], ast.Constant) and t_.comparators[0].value is None and t_.left.id in ctx.env):
+            t, ty = ctx.env[t_.left.id]
+            if t == 'a_extend':
+                die(s, 'a parameter that defaults to None may be None')
+            if ty not in UNOPT:
+                return after(ctx)
+            w = ctx.fresh('w', UNOPT[ty])
+            ctx.env[t_.left.id] = (w, UNOPT[ty])
+            return f'(match {t} with | Some {w} => {after(ctx)} | None => None end)'
+        if is_effect(ctx, t_) or any(isinstance(n, ast.NamedExpr) for n in ast.walk(t_)):
+            die(s, 'assert with effects')
+        return mk_if(tr_pure(ctx, t_, 'bool'), after(ctx), 'None')
     if isinstance(s, ast.Return):
         if s.value is None:
             die(s, 'bare return')
